@@ -135,28 +135,43 @@ class DevResult:
         self.instants = 0
 
 
+def _run_and_filter(run, restrict, k_max, job):
+    """worker side of deviations(): run one job and apply the placement veto there (the list of all placements of a run
+    is long; only its length and the allowed ones travel back)"""
+    cfg, devs = job
+    viols, outcome, places = run(job)
+    k = len(devs)
+    if k >= k_max or viols:
+        allowed = []
+    elif restrict is None:
+        allowed = places
+    else:
+        allowed = [p for p in places if restrict(cfg, devs, p, k + 1)]
+    return viols, outcome, len(places), allowed
+
+
 def deviations(run, k_max, base_cfgs, deadline=None, restrict=None, chunksize=None, stop_if=None):
     """run((cfg, devs)) -> (violations, outcome, next_placements) where next_placements is a
     list of disturbances that may be appended to devs.  Level-synchronous over k.
     restrict(cfg, devs, placement, k) may veto a placement (used to thin k=2 in quick)."""
+    import functools
     res = DevResult()
     level = [(cfg, ()) for cfg in base_cfgs]
+    fn = functools.partial(_run_and_filter, run, restrict, k_max)
     for k in range(0, k_max + 1):
         if deadline is not None and time.time() > deadline:
             res.capped = f"time budget reached before k={k}"
             break
-        out = core.pmap(run, level, chunksize)
+        out = core.pmap(fn, level, chunksize)
         nxt = []
-        for (cfg, devs), (viols, outcome, places) in zip(level, out):
+        for (cfg, devs), (viols, outcome, nplaces, allowed) in zip(level, out):
             res.runs += 1
             res.outcomes[outcome] = res.outcomes.get(outcome, 0) + 1
-            res.instants += len(places)
+            res.instants += nplaces
             for v in viols:
                 res.violations.append(((cfg, devs), v))
-            if k < k_max and not viols:
-                for p in places:
-                    if restrict is None or restrict(cfg, devs, p, k + 1):
-                        nxt.append((cfg, devs + (p,)))
+            for p in allowed:
+                nxt.append((cfg, devs + (p,)))
         res.by_level.append(len(level))
         res.completed_k = k
         level = nxt
